@@ -169,10 +169,17 @@ def execute_processor(ctx, case):
   cache = b.cache.MetricCache()
   canon = 'srv.cpu;a=1;b=2'
   t = 100
-  while not overflow and t < 100 + 4 * case['max_cache_size'] + 8:
+  stalled = 0
+  while not overflow and stalled < 2 and t < 100 + 4 * case['max_cache_size'] + 12:
+    before = cache.size
     proc.process(canon, (t, float(t)))
+    stalled = stalled + 1 if cache.size == before else 0
     t += 1
   if not overflow:
+    if stalled:
+      ctx.fail('C10:refused-without-signal', 'new datapoints are refused at %d cached datapoints (MAX_CACHE_SIZE=%d flow=%s) but no '
+               'overflow signal was raised' % (cache.size, case['max_cache_size'], case['flow']), case, 'signal')
+      return
     raise HarnessError('cache never filled')
   full_size = cache.size
   held = dict(dict.get(cache, canon, {}))
